@@ -460,3 +460,48 @@ Definition c05_history (toks : list (list N)) : list (list N) :=
     c05_ops (length ops) flags (c05_config flags main alts rp ping speed) ops
   | _ => REJECT_TOK
   end.
+
+(* ---------------- C13 ---------------- *)
+From TT Require Import Model.Settings.
+
+(* in: [unspec; loopback; port; has_rp; rp_port; h1; h2; h3; nclients] rp-mask.  out: [0 ok | 1..4] *)
+Definition c13_validate (toks : list (list N)) : list (list N) :=
+  match toks with
+  | [un; lo; port; hasrp; rpp; h1; h2; h3; nc] :: rest =>
+    let mask := match rest with m :: _ => m | [] => [] end in
+    let s := {| s_addr_unspecified := un =? 1; s_addr_loopback := lo =? 1; s_port := port;
+                s_rp := if hasrp =? 1 then Some {| rp_port := rpp; rp_mask := mask |} else None;
+                s_h1 := h1 =? 1; s_h2 := h2 =? 1; s_h3 := h3 =? 1;
+                s_clients := repeat ([117], [112]) (N.to_nat nc) |} in
+    [[match validate s with
+      | None => 0 | Some ListenAddressNotSet => 1 | Some BadReverseProxy => 2
+      | Some NoListenProtocol => 3 | Some NoCredentialsOnPublicAddress => 4 end]]
+  | _ => REJECT_TOK
+  end.
+
+(* in: [n] then per client [has_user; has_pass] user pass, then probe tokens.
+   out: [0] | [1; n] (user pass)* [verdicts] *)
+Fixpoint c13_tables (n : nat) (toks : list (list N))
+  : list (option (list N) * option (list N)) * list (list N) :=
+  match n with
+  | O => ([], toks)
+  | S k => match toks with
+           | [hu; hp] :: u :: p :: rest =>
+             let '(ts, tl) := c13_tables k rest in
+             ((if hu =? 1 then Some u else None, if hp =? 1 then Some p else None) :: ts, tl)
+           | _ => ([], toks)
+           end
+  end.
+
+Definition c13_clients (toks : list (list N)) : list (list N) :=
+  match toks with
+  | [n] :: rest =>
+    let '(ts, probes) := c13_tables (N.to_nat n) rest in
+    match read_clients true ts with
+    | None => [[0]]
+    | Some cs =>
+      [1; lenN cs] :: flat_map (fun c => [fst c; snd c]) cs
+      ++ [map (fun t => if authenticate cs t then 1 else 0) probes]
+    end
+  | _ => REJECT_TOK
+  end.
